@@ -23,11 +23,11 @@ CHECKS.update({
    note=CODEC_NOTE),
  "C02": dict(engine="codec_harness", category="exploration", design="DESIGN.md §2 C02",
    technique="PBT over message values, body-length sweeps around header boundaries and proptest-generated message streams; header oracle from the protocol description; counting readers",
-   text="Checks the header every writer emits (opcode, size field, 2/3-byte form) for all encodings of the directed enumeration, sweeps body lengths around 0x7FFF / 0xFFFF / 0x7FFFFF through decode+write, direct writes and (for lengths up to 64 KiB) the encrypting writers read back by the peer's decrypting reader, verifies reader position after Ok and after errors, and reads proptest-generated concatenations of written messages through the opcode-enum readers and the typed expect_* helpers (sync, tokio, async-std).",
+   text="Checks the header every writer emits (opcode, size field, 2/3-byte form) for all encodings of the directed enumeration, sweeps body lengths around 0x7FFF / 0xFFFF / 0x7FFFFF through decode+write, direct writes and (for lengths up to 64 KiB) the encrypting writers read back by the peer's decrypting reader, verifies reader position after Ok and after errors, and reads proptest-generated concatenations of written messages through the opcode-enum readers (blocking on the whole stream, tokio and async-std with the transport handing out pieces cut inside and right after each header) and the typed expect_* helpers (sync, tokio, async-std).",
    note=CODEC_NOTE + " Typed helpers are exercised for a fixed representative set of 29 message types per expansion."),
  "C03": dict(engine="codec_harness", category="fault_enumeration", design="DESIGN.md §2 C03",
    technique="structured fault injection from the model's trace + random frames (proptest), each case in an isolated worker process under RLIMIT_AS and a watchdog",
-   text="Every message's valid encodings are corrupted field by field (truncations, count/length/size extremes, out-of-range enum/bool/flag/mask/date patterns, string damage, inconsistent headers, zlib damage and bombs) and fed, with random bodies, an exhaustive per-endpoint header sweep (every small / boundary size in the 2-byte and 3-byte form x defined / undefined opcode x tails x truncations) and raw byte strings, to the public readers (800 / 8000 directed encodings per message in the quick / thorough tier) inside worker processes whose address space is limited to 1.5 GiB beyond their footprint at the time of the call; any panic, abort, allocation failure or stack overflow is a violation, a watchdog hit is inconclusive.",
+   text="Every message's valid encodings are corrupted field by field (truncations, count/length/size extremes, out-of-range enum/bool/flag/mask/date patterns, string damage (invalid UTF-8, unterminated, 255..300 bytes around the readers' cut-off with the body cut after each of the next fields), inconsistent headers, zlib damage and bombs) and fed, with random bodies, an exhaustive per-endpoint header sweep (every small / boundary size in the 2-byte and 3-byte form x defined / undefined opcode x tails x truncations) and raw byte strings, to the public readers (800 / 8000 directed encodings per message in the quick / thorough tier) inside worker processes whose address space is limited to 1.5 GiB beyond their footprint at the time of the call; any panic, abort, allocation failure or stack overflow is a violation, a watchdog hit is inconclusive.",
    note=CODEC_NOTE + " Overflow checks are on in the harness build. Hangs shorter than the watchdog and memory growth below the budget are not detected."),
  "C04": dict(engine="codec_harness", category="fault_enumeration", design="DESIGN.md §2 C04",
    technique="enumeration of fault sites from the wowm model (every enum leaf x undeclared values incl. width aliases; every constant-size message x every wrong length; exhaustive opcode space) with a metamorphic oracle",
@@ -39,7 +39,7 @@ CHECKS.update({
 CHECKS.update({
  "C05": dict(engine="codec_harness", category="exploration", design="DESIGN.md §2 C05",
    technique="stateful PBT: proptest-generated session keys and message sequences through the encrypted writers and the peer's decrypting readers; differential against the plain stream",
-   text="For each expansion and direction, proptest draws a session key and a sequence of up to 16 written messages (all types, compressed ones, Wrath server bodies on both sides of the 2/3-byte boundary); the ciphertext must equal the plaintext outside the header byte ranges, the peer's read_encrypted (sync/tokio/async-std) and the typed expect_*_message_encryption helpers must return the plain reader's messages, a probe message after the sequence must still decrypt, and the three encrypted writers must emit identical bytes.",
+   text="For each expansion and direction every message of the pool goes once through each of the three encrypted writers and the matching decrypting reader; then proptest draws a session key and a sequence of up to 16 written messages (all types, compressed ones, Wrath server bodies on both sides of the 2/3-byte boundary); the ciphertext must equal the plaintext outside the header byte ranges, the peer's read_encrypted (sync/tokio/async-std) and the typed expect_*_message_encryption helpers must return the plain reader's messages, a probe message after the sequence must still decrypt, and the three encrypted writers must emit identical bytes.",
    note=CODEC_NOTE + " wow_srp's header cipher is trusted as the definition of the encryption."),
  "C06": dict(engine="codec_harness", category="exploration", design="DESIGN.md §2 C06",
    technique="schedule-owning harness: scripted AsyncRead/AsyncWrite with chosen chunking and Pending counts, hand-rolled poll loop; exhaustive chunk compositions for short frames, proptest schedules beyond; differential against the blocking reader",
@@ -71,7 +71,7 @@ GEN_NOTE = "Trusts the independent wowm model, rsync/scratch-tree plumbing, and 
 CHECKS.update({
  "C08": dict(engine="gencheck", category="exploration", design="DESIGN.md §2 C08",
    technique="stateful PBT over generator-run histories on scratch trees: proptest-generated perturbations (delete / truncate / stale / extra / append) of generated artefacts followed by generator runs; metamorphic oracle (same input => same tree) and drift check against the committed tree",
-   text="The real generator is run repeatedly on scratch copies: a fresh run must reproduce the committed artefacts byte for byte (files emptied in this checkout are compared between runs instead), a second run must change nothing, independent runs in different directories must agree, and after every proptest-generated history of perturbations of generated files one run must converge to the reference tree.",
+   text="The real generator is run repeatedly on scratch copies: a fresh run must reproduce the committed artefacts byte for byte (files emptied in this checkout are compared between runs instead), a second run must change nothing, independent runs in different directories must agree, a run that reaches the tree through a symbolic link and a run on the tree moved below directories named like its own (src/wowm/.../wow_message_parser) must give the same tree, and after every proptest-generated history of perturbations of generated files one run must converge to the reference tree.",
    note=GEN_NOTE),
  "C16": dict(engine="gencheck", category="fault_enumeration", design="DESIGN.md §2 C16",
    technique="fault injection: per language rule, injection sites enumerated over the real corpus through the independent model's syntax tree, a seed-chosen stratified subset applied as single textual edits, real generator run on scratch trees; oracle = the rule's exit status and a diagnostic naming the file",
@@ -86,7 +86,7 @@ CHECKS.update({
    note=GEN_NOTE + " Exact for enum conditions; flag conditions enumerate all subsets of the tested bits (capped at 16 bits, counted). Lengths of compressed payloads are only bounded from below and not judged."),
  "C10": dict(engine="gencheck", category="exploration", design="DESIGN.md §2 C10",
    technique="RFC 8927 validator written from the RFC + field-by-field differential of the emitted IR against the independent model's reading of the wowm text, on the shipped corpus and on proptest-chosen batches of valid mutants (15 edit kinds) where the IR must follow the edit",
-   text="The whole document is validated against the published JSON Typedef schema (additional properties rejected); object sets are compared per namespace in both directions; every object is compared fact by fact (about 400,000 facts on the shipped tree): kinds, opcodes, integer types, enumerators and values, member order and types, arrays, upcasts, constants, condition sets incl. != and else, optional blocks, tags, versions, comments, usage relation, positions, test vectors.",
+   text="The whole document is validated against the published JSON Typedef schema (additional properties rejected); object sets are compared per namespace in both directions; every object is compared fact by fact (about 400,000 facts on the shipped tree): kinds, opcodes, integer types, enumerators and values, member order and types, arrays, upcasts, constants, condition sets incl. != and else, optional blocks, tags, versions, comments, usage relation, positions, test vectors; the wowm objects embedded in the three update-mask tables are compared in full with the object of that name in the table's own expansion.",
    note=GEN_NOTE + " Derived fields (prepared_objects, only_has_io_error, end positions) are not compared; sizes are C09's."),
 })
 
@@ -104,7 +104,7 @@ CHECKS.update({
 CHECKS.update({
  "C07": dict(engine="gencheck", category="exploration", design="DESIGN.md §2 C07",
    technique="grammar-based program generation (proptest tape -> well-formed wowm message definitions over all language features of the world corpus), real generator + rustc on scratch trees, then round-trip of the compiled codec over canonical encodings that the independent model derives from the same text (directed enumeration of every decision site + tapes); hand-reduced directed cases reproduce each recorded finding",
-   text="About 360 random definitions per quick run (96 x 80 thorough) replace the bodies of Vanilla messages in six scratch trees; the generator must accept each tree, the generated crate must compile, and a probe through the public opcode enums must accept, fully consume and byte-identically re-encode every encoding (about 14,000 per quick run). A definition that stops the generator or the build is attributed (diagnostic, else bisection), reported, taken out, and the rest of the batch continues. Shapes covered by a recorded finding are steered around by construction (counted) and re-checked by 14 directed cases.",
+   text="About 360 random definitions per quick run (96 x 80 thorough) (members of every builtin type, enums and flags with if / else-if / else, optional blocks, fixed / counted / endless arrays, auxiliary structs with and without counted arrays of their own) replace the bodies of Vanilla messages in six scratch trees; the generator must accept each tree, the generated crate must compile, and a probe through the public opcode enums must accept, fully consume and byte-identically re-encode every encoding (about 14,000 per quick run). A definition that stops the generator or the build is attributed (diagnostic, else bisection), reported, taken out, and the rest of the batch continues. Shapes covered by a recorded finding are steered around by construction (counted) and re-checked by 14 directed cases.",
    note=GEN_NOTE + " Only the Vanilla module with the sync flavour is compiled. No automatic shrinking of a failing definition beyond attribution: the replay file carries the tape and the text."),
  "C19": dict(engine="gencheck", category="exploration", design="DESIGN.md §2 C19",
    technique="combinatorial interaction testing of cargo features (seeded greedy strength-3 covering arrays, full powerset in the thorough tier) with cargo check, failing sets reduced feature by feature; plus a differential across feature configurations: one probe program compiled under several feature sets run on the same model-generated frames",
